@@ -71,14 +71,14 @@ func (e *Engine) Summary(fn *ssa.Function) *Summary {
 			return
 		}
 		if hasErr {
-			ev := r.Results[n-1]
+			ev := kit.Res(r, n-1)
 			if !kit.IsNilConst(kit.Root(ev)) && provablyNonNilErr(ev, r.Block()) {
 				return // error return: no post-condition
 			}
 		}
 		idx := kit.InstrIndex(r)
 		for i := 0; i < n; i++ {
-			rv := r.Results[i]
+			rv := kit.Res(r, i)
 			if _, _, isInt := intInfo(res.At(i).Type()); isInt {
 				if first {
 					s.UpperLen[i] = map[int]bool{}
